@@ -34,6 +34,18 @@ add("C09", "exhaustive small-scope enumeration x 6 configurations with a determi
     "Every solve / solve_multiple call over the reduced C01 corpus and the growing families must return within a tick budget several times the largest count observed on returning calls, without panicking (the recursive solver's overflow-depth panic is allowed only where the search is that deep).",
     "Termination is decided in bounded form: 'returns within N ticks'. The budget and the observed maximum are in the evidence.",
     "DESIGN.md §4 C09")
+add("C10", "explicit-state breadth-first search over solver histories (states rebuilt by replay, deduplicated by the solver-state fingerprint of hook H2) run to closure",
+    "For every program of the corpus and each of SLG / recursive / recursive-without-cache, every sequence of solve(g) over an alphabet of goals that share subgoals is explored until no new solver state (tables, answers, suspended strands / cache entries) appears; on every transition the answer must equal the fresh-solver answer, the recursive solver must keep no stack or search-graph residue, and cache-on and cache-off answers must agree.",
+    "State identity is the H2 fingerprint with forest-clock stamps dropped (argued in DESIGN §3.4). Alphabet size 4 (quick) / 6 (thorough).",
+    "DESIGN.md §4 C10")
+add("C11", "deviation-bounded exhaustive enumeration of interruption schedules (0, 1, 2 deviations from 'always continue') with continuation sequences on the same solver",
+    "A clean solve_limited counts the N invocations of the continue-callback; then every schedule 'false exactly at k', 'false from k on', 'false at k and j' is executed on a fresh solver, followed by every continuation sequence (solve / interrupted again then solve / ...): the interrupted result must equal the full answer or be an ambiguous answer that does not contradict it, and every later uninterrupted solve must equal the fresh-solver answer.",
+    "The full answer is the fresh-solver `solve` answer. N is capped per tier (reported when the cap truncates a schedule space).",
+    "DESIGN.md §4 C11")
+add("C12", "crash-point enumeration: the n-th database callback panics, for every n of a clean run, optionally followed by a second injected panic",
+    "A counting wrapper around the program database records the N callbacks of a clean solve; for EVERY n in 1..N the n-th callback panics (whichever method it is), the panic is caught, and the same goal and every other alphabet goal are then solved on the same solver: no panic, and answers equal to a fresh solver's. Thorough adds every second crash point m <= 25 in the retry.",
+    "Panics are injected only from database callbacks. Programs are a deterministic thinning of the corpus (stride reported).",
+    "DESIGN.md §4 C12", category="fault_enumeration")
 add("C14", "explicit-state breadth-first search over real InferenceTables (clonable states, canonical-state dedup), every transition compared with a reference unifier",
     "From a table with unknowns in three universes, integer/float unknowns and placeholders of two universes, every ordered pair of a term set (ADTs incl. a covariant one, tuples, slices, raw pointers, scalars; depth <= 3) is related invariantly from every reachable table state up to the tier's depth; success must coincide with REF-unifiability (occurs check, universe visibility, kinds) and the resulting table must be alpha-equivalent to REF's most general unifier including universes; covariant relation of lifetime-free types must agree after discharging its returned subtype goals.",
     "Trusted: the reference unifier in harness/src/props/c14.rs. Bounds: term depth, search depth 2 (quick) / 3 (thorough), frontier cap reported.",
@@ -46,6 +58,14 @@ add("C16", "exhaustive enumeration of bounded values over 8 table states; every 
     "Every tuple of 2 (thorough: 3) type terms of depth <= 2 mixing unknowns of all three kinds in two universes, placeholders of all kinds in two other universes, repeated unknowns, over the initial table and seven pre-unified tables: canonicalize must number unknowns by first occurrence with kind and current universe, be invariant under swapping interchangeable unknowns, survive instantiate+canonicalize, and u_canonicalize must be a monotone compression onto 0..n that map_from_canonical undoes for every kind.",
     "Trusted: the 30-line reference canonicalizer. `invert` is not judged (the statement does not mention it).",
     "DESIGN.md §4 C16")
+add("C17", "exhaustive enumeration of pairs and folded triples of bounded canonical substitutions through the real anti-unifier and may-invalidate check (hook H3), and of all solution pairs through Solution::combine, against first-order matching and a set-semantics model",
+    "Every ordered pair (and triple, folded) of same-shape canonical substitutions with 1-2 entries over terms of depth <= 2 covering every constructor the anti-unifier distinguishes, placeholders, repeated bound variables, consts and lifetimes: both inputs must be instances of merge_into_guidance's result, and may_invalidate = false must imply that the new answer is an instance of the current guidance (consistent matching). Every pair of Unique/Definite/Suggested/Unknown solutions over a pattern set: combine must be commutative and, read as a claim about solution sets over a ground domain, must allow the union of any two sets its inputs allow.",
+    "Trusted: 40 lines of consistent first-order matching; the reading of a solution as a constraint on solution sets (Unique = exactly the instances, Definite = subset of the instances, otherwise no claim).",
+    "DESIGN.md §4 C17")
+add("C18", "exhaustive enumeration of type pairs / clause-goal pairs through could_match, of impl headers vs goals through Program::impls_for_trait, and a differential run of both solvers with the filter bypassed",
+    "could_match = false must imply REF-non-unifiability (unknowns of the two sides kept apart) for every ordered pair of a set of types of depth <= 2 (3 thorough) over all constructor kinds and for clause/goal pairs of trait references; every impl whose header unifies with an atomic goal must be returned by impls_for_trait; and for every (program, goal, solver) of the reduced corpus the answer must be identical when a database wrapper returns all impls of the trait instead of the filtered list.",
+    "Trusted: Robinson unification over the harness term language.",
+    "DESIGN.md §4 C18")
 add("C28", "exhaustive small-scope enumeration with a structural well-formedness monitor on every returned solution",
     "Every solution returned by either solver (and every enumerated SLG answer) over the reduced C01 corpus plus goals with lifetime/const unknowns and nested forall is checked: one entry per query variable, matching kinds, bound variables only at the solution's own binder and in range, no universe the query cannot name, no inference variables, and applying it to the query does not panic.",
     "The monitor reads chalk's values through the public visitor API.",
